@@ -1343,7 +1343,10 @@ class LangServer:
             # Update file contents with changes
             reparse_req = True
             if self.sync_type == 1:
-                file_obj.apply_change(params["contentChanges"][0])
+                # Changes apply in order: of several whole-document texts in one
+                # notification the last one is the document
+                for change in params["contentChanges"]:
+                    file_obj.apply_change(change)
             else:
                 try:
                     reparse_req = False
